@@ -1,5 +1,5 @@
 use std::{
-    collections::HashMap,
+    collections::{HashMap, HashSet},
     path::PathBuf,
     sync::{Arc, Mutex},
     time::{Duration, Instant, SystemTime, UNIX_EPOCH},
@@ -95,12 +95,34 @@ pub type ToolHandler = Arc<dyn Fn(ToolInvocation) -> BoxFuture<'static, ToolOutp
 pub struct ToolRegistry {
     tools: Mutex<HashMap<String, ToolHandler>>,
     aliases: Mutex<HashMap<String, String>>,
+    uninterruptible: Mutex<HashSet<String>>,
 }
 
 impl ToolRegistry {
     pub fn register(&self, name: impl Into<String>, handler: ToolHandler) {
         let mut tools = self.tools.lock().expect("tool registry mutex");
         tools.insert(name.into(), handler);
+    }
+
+    /// Registers a tool whose work cannot be stopped by dropping its future (a file mutation on
+    /// the blocking pool): when such a call times out, the runner reports the timeout only after
+    /// the work has finished, so the caller never releases the workspace while it is still going.
+    pub fn register_uninterruptible(&self, name: impl Into<String>, handler: ToolHandler) {
+        let name = name.into();
+        self.uninterruptible
+            .lock()
+            .expect("tool registry mutex")
+            .insert(name.clone());
+        self.register(name, handler);
+    }
+
+    fn is_uninterruptible(&self, name: &str) -> bool {
+        let target = {
+            let aliases = self.aliases.lock().expect("tool alias mutex");
+            aliases.get(name).cloned()
+        };
+        let names = self.uninterruptible.lock().expect("tool registry mutex");
+        names.contains(name) || target.map(|t| names.contains(&t)).unwrap_or(false)
     }
 
     pub fn register_alias(&self, alias: impl Into<String>, target: impl Into<String>) {
@@ -188,14 +210,15 @@ impl ToolRunner {
         };
 
         let output = if let Some(timeout_ms) = invocation.timeout_ms {
-            match tokio::time::timeout(
-                Duration::from_millis(timeout_ms),
-                (handler)(invocation.clone()),
-            )
-            .await
-            {
+            let mut call = (handler)(invocation.clone());
+            match tokio::time::timeout(Duration::from_millis(timeout_ms), &mut call).await {
                 Ok(output) => Ok(output),
-                Err(_) => Err("timeout".to_string()),
+                Err(_) => {
+                    if self.registry.is_uninterruptible(&invocation.name) {
+                        let _ = call.await;
+                    }
+                    Err("timeout".to_string())
+                }
             }
         } else {
             Ok((handler)(invocation.clone()).await)
